@@ -1,6 +1,8 @@
 import GrinVerif.Lemmas.ChainBisim
 import GrinVerif.Lemmas.ChainSim
 import GrinVerif.Lemmas.ChainExampleFacts
+import GrinVerif.Lemmas.ChainMoreReject
+import GrinVerif.Lemmas.ChainMoreExamples
 /-! # C06 — rejected or losing-fork input leaves best-chain state untouched
 (theorems on `Model/Chain.lean`; `KnownFull`, `hdrUpdate` in `Lemmas/ChainStep.lean`, `StoreInv`
 in `Lemmas/ChainValid.lean`, `CoreEq`, `obsBest` in `Lemmas/ChainBisim.lean`).
@@ -189,6 +191,209 @@ theorem inv_after_run (p : Params) (n : Node) (es : List Event) (hf : Fresh n)
     (hreg : Registered n es) : Inv p (run p n es) :=
   run_preserved (preserved_inv p) n es hreg (hf.inv p)
 
+/-! ## every refusal class, at the level of whole deliveries
+
+`Refused p n b` (`Lemmas/ChainMoreReject.lean`): `deliverBlock` (= `Chain::process_block`) returns
+an error and head, stored blocks and the reported unspent set are what they were. -/
+
+/-- **Any error, any stage**: a delivery that returns an error leaves the whole best-chain
+observation (head, stored blocks, reported unspent set) unchanged. -/
+theorem every_refusal_preserves (p : Params) (n : Node) (b : Blk) (e : Err)
+    (h : (deliverBlock p n b).2 = .err e) : obsBest p (deliverBlock p n b).1 = obsBest p n := by
+  obtain ⟨_, _, h1, h2, h3⟩ := refused_of_err p n b e h
+  simp [obsBest, h1, h2, h3]
+
+/-- **The refusal classes, exhaustively.** An error returned by a delivery comes from exactly one
+of four stages, in the code's order: the header gate (`process_block_header`: unknown parent
+header, height, version, timestamp, `hdr:` tag = PoW / difficulty / root fault), the cheap
+pre-checks (`is_known` / `check_known`: `Unfit`, `OldBlock`; no parent: `StoreErr`), the orphan
+check (`Orphan`), or the full validation against the parent's replayed state (`checkBlock`). -/
+theorem refusal_stages (p : Params) (n : Node) (b : Blk) (e : Err)
+    (h : (deliverBlock p n b).2 = .err e) :
+    processHeader p n b = .error e ∨
+    ∃ n1, processHeader p n b = .ok n1 ∧
+      (precheck n1 b = .reject e ∨ (precheck n1 b = .orphan ∧ e = "Orphan") ∨
+       ∃ par, precheck n1 b = .go par ∧ checkBlock p n1 b par = .error e) := by
+  have h1 := deliverBlock_err_inv p n b e h
+  rcases processBlockSingle_spec p n b with ⟨e', he, hr⟩ | ⟨n1, hn1, hr⟩
+  · left
+    rw [hr] at h1
+    injection h1 with h1
+    rw [← h1]; exact he
+  · right
+    refine ⟨n1, hn1, ?_⟩
+    rcases hr with ⟨e', he, hr⟩ | ⟨ho, hr⟩ | ⟨par, hg, ⟨e', he, hr⟩ | ⟨s', _, hr⟩⟩
+    · left
+      rw [hr] at h1
+      injection h1 with h1
+      rw [← h1]; exact he
+    · right; left
+      rw [hr] at h1
+      injection h1 with h1
+      exact ⟨ho, h1.symm⟩
+    · right; right
+      rw [hr] at h1
+      injection h1 with h1
+      exact ⟨par, hg, h1 ▸ he⟩
+    · rw [hr] at h1
+      exact absurd h1 (storeBlock_ok n1 b e)
+
+/-- … and an error of the full validation is the parent's state being unavailable, a body fault
+(`Block::validate`), or — with a valid body — a state fault (`validate_utxo`, maturity, block sums,
+NRD, late root / size check), in that order. -/
+theorem checkBlock_error_classes (p : Params) (n : Node) (b : Blk) (par : Nat) (e : Err)
+    (h : checkBlock p n b par = .error e) :
+    (∃ e', n.stateAt p par = .error e' ∧ e = s!"ParentState:{e'}") ∨
+    (∃ sPar, n.stateAt p par = .ok sPar ∧
+      (validateBody p n.outs b (sumVals n.outs b.ins) = some e ∨
+       (validateBody p n.outs b (sumVals n.outs b.ins) = none ∧ stateChecks p sPar b = some e))) := by
+  unfold checkBlock at h
+  cases hst : n.stateAt p par with
+  | error e' =>
+    rw [hst] at h
+    injection h with h
+    exact Or.inl ⟨e', rfl, h.symm⟩
+  | ok sPar =>
+    rw [hst] at h
+    dsimp only at h
+    right
+    refine ⟨sPar, rfl, ?_⟩
+    cases hv : validateBody p n.outs b (sumVals n.outs b.ins) with
+    | some e' =>
+      rw [hv] at h
+      dsimp only at h
+      injection h with h
+      exact Or.inl (by rw [h])
+    | none =>
+      rw [hv] at h
+      dsimp only at h
+      right
+      refine ⟨rfl, ?_⟩
+      unfold applyBlock at h
+      cases hs : stateChecks p sPar b with
+      | none => rw [hs] at h; cases h
+      | some e' =>
+        rw [hs] at h
+        injection h with h
+        rw [h]
+
+/-- **Each body-fault class** — signature / range-proof / sorting fault (`body:` tag), a commitment
+twice among the inputs or the outputs, cut-through, a lock height above the block, an NRD kernel
+before its era, a wrong coinbase claim, an unbalanced body, a blinding-level kernel-sum fault
+(`ksum:` tag) — makes every node refuse the block with the best-chain observation unchanged. -/
+theorem body_fault_refused (p : Params) (n : Node) (b : Blk)
+    (h : hasTag b "body:" ≠ none ∨ dupInBody b = true ∨ cutThroughViolation b = true ∨
+      lockViolation b = true ∨ nrdEraViolation b = true ∨ coinbaseMismatch p n.outs b = true ∨
+      valueMismatch p n.outs b (sumVals n.outs b.ins) = true ∨ hasTag b "ksum:" ≠ none) :
+    Refused p n b := by
+  apply refused_of_body_fault
+  intro hv
+  obtain ⟨h1, h2, h3, h4, h5, h6, h7, h8⟩ := (validateBody_none_iff p n.outs b _).mp hv
+  rcases h with h | h | h | h | h | h | h | h
+  · exact h h1
+  · rw [h2] at h; cases h
+  · rw [h3] at h; cases h
+  · rw [h4] at h; cases h
+  · rw [h5] at h; cases h
+  · rw [h6] at h; cases h
+  · rw [h7] at h; cases h
+  · exact h h8
+
+/-- **Each state-fault class** — against the replayed state `sPar` of the block's own parent: an
+input that is not unspent, an immature coinbase spend, a duplicate of an unspent commitment, a
+block-sums fault (`sums:` tag), an NRD kernel too close to the previous occurrence, a root / size
+mismatch detected after the block was applied to the working state (`late:` tag) — makes every
+node refuse the block with the best-chain observation unchanged. -/
+theorem state_fault_refused (p : Params) (n : Node) (b : Blk) (par : Nat) (sPar : UState)
+    (hpar : b.parent = some par) (hst : n.stateAt p par = .ok sPar)
+    (h : b.ins.all sPar.has = false ∨ immature p sPar b = true ∨ dupOutput sPar b = true ∨
+      hasTag b "sums:" ≠ none ∨ nrdBad sPar b = true ∨ hasTag b "late:" ≠ none) :
+    Refused p n b := by
+  apply refused_of_state_fault
+  intro par' sPar' hpar' hst' hn
+  rw [hpar] at hpar'
+  cases hpar'
+  rw [hst] at hst'
+  cases hst'
+  obtain ⟨h1, h2, h3, h4, h5, h6⟩ := (stateChecks_none_iff p sPar b).mp hn
+  rcases h with h | h | h | h | h | h
+  · rw [h1] at h; cases h
+  · rw [h2] at h; cases h
+  · rw [h3] at h; cases h
+  · exact h h4
+  · rw [h5] at h; cases h
+  · exact h h6
+
+/-- **Each header-fault class** — unknown parent header, wrong height, version, timestamp not after
+the parent's, `hdr:` tag (PoW, difficulty, `prev_root`) — on any node reached by a history (store
+invariant), for a block that is not already known: refused, and the node is left unchanged
+*entirely* (nothing is remembered of an invalid header). -/
+theorem header_fault_refused (p : Params) (n : Node) (b : Blk) (hb : n.blk b.id = some b)
+    (hi : StoreInv p n) (hk : ¬ KnownFull n b) (h : validateHeader p n b ≠ none) :
+    Refused p n b ∧ (deliverBlock p n b).1 = n :=
+  refused_of_header_fault p n b hb hi hk h
+
+/-- **A block whose parent is unavailable**: no parent at all, or a parent without a replayable
+path — refused. -/
+theorem parent_state_fault_refused (p : Params) (n : Node) (b : Blk)
+    (h : ∀ par, b.parent = some par → ∃ e, n.stateAt p par = .error e) : Refused p n b :=
+  refused_of_parent_state p n b h
+
+/-! ## headers and orphans never change the body state -/
+
+/-- **Header-only deliveries never change the body state**: after any sequence of header
+deliveries — accepted or refused, on any fork, moving `header_head` anywhere — head, stored blocks
+and the reported unspent set are what they were. -/
+theorem header_deliveries_preserve (p : Params) (bs : List Blk) : ∀ (n : Node),
+    obsBest p (run p n (bs.map Event.header)) = obsBest p n := by
+  induction bs with
+  | nil => intro n; rfl
+  | cons b bs ih =>
+    intro n
+    rw [List.map_cons, run_cons, ih]
+    have hf := header_accept_frame p n b
+    have hd := deliverHeader_defs p n b
+    simp only [step, obsBest, hf.1, hf.2, reportedUtxo_congr hd.1 hf.1 p]
+
+/-- **A block parked as an orphan changes nothing but the pool** (and possibly the remembered
+header): same head, stored blocks, reported unspent set; the pool is the old pool plus the block. -/
+theorem orphan_parked_preserves (p : Params) (n : Node) (b : Blk)
+    (h : (deliverBlock p n b).2 = .err "Orphan") :
+    obsBest p (deliverBlock p n b).1 = obsBest p n ∧
+    ∀ o, o ∈ (deliverBlock p n b).1.orphans → o ∈ n.orphans ∨ o = b.id := by
+  refine ⟨every_refusal_preserves p n b _ h, ?_⟩
+  have h1 := deliverBlock_err_inv p n b _ h
+  rw [deliverBlock_of_err p n b _ h1]
+  intro o ho
+  exact pbs_orphans_sub p n b o ho
+
+/-- every block delivery of the history is refused (parked orphans and refusals at any stage
+alike); header deliveries are unconstrained -/
+def AllRefused (p : Params) : Node → List Event → Prop
+  | _, [] => True
+  | n, .block b :: es => (∃ e, (deliverBlock p n b).2 = .err e) ∧ AllRefused p (step p n (.block b)) es
+  | n, .header b :: es => AllRefused p (step p n (.header b)) es
+
+/-- **Orphans never change the body state until one is connected**: along any history in which no
+block delivery is accepted — blocks refused at any stage, blocks parked in the orphan pool, headers
+accepted or refused, in any order and number — the best-chain observation never changes. (The pool
+is examined only by `check_orphans`, which runs only after a block was accepted.) -/
+theorem all_refused_preserves (p : Params) (es : List Event) : ∀ (n : Node), AllRefused p n es →
+    obsBest p (run p n es) = obsBest p n := by
+  induction es with
+  | nil => intro n _; rfl
+  | cons ev es ih =>
+    intro n h
+    rw [run_cons]
+    cases ev with
+    | block b =>
+      obtain ⟨⟨e, he⟩, hrest⟩ := h
+      rw [ih _ hrest]
+      exact every_refusal_preserves p n b e he
+    | header b =>
+      rw [ih _ h]
+      exact header_deliveries_preserve p [b] n
+
 /-! ## non-vacuity: the hypotheses hold on the concrete tree of `Lemmas/ChainExamples.lean`
 (0 ── 1 ── 3 ── 4, sibling 2 of 1, invalid child 9 of 1; 3 spends the genesis output 100 and
 4 re-creates that commitment) -/
@@ -260,4 +465,38 @@ example : obsBest P (run P (processBlockSingle P (run P N [.block B1]) B9).1 [.b
       rcases he with rfl | rfl | rfl <;> rfl)
 
 end Examples
+
+/-! ### refusal classes on the tree of `Lemmas/ChainMoreExamples.lean` -/
+section ClassExamples
+open GV.Chain.Ex2
+
+-- `state_fault_refused`: the `sums:` tag (b5) and the duplicate commitment (b4) on the head b1
+example : Refused Ex2.P NB Ex2.B5 :=
+  state_fault_refused Ex2.P NB Ex2.B5 11 _ rfl
+    (rfl : NB.stateAt Ex2.P 11 = .ok { utxo := [(100, 0, false), (121, 1, true)], nrd := [], height := 1 })
+    (Or.inr (Or.inr (Or.inr (Or.inl (by simp [hasTag, Ex2.B5])))))
+
+-- `body_fault_refused`: a3 names an input twice
+example : Refused Ex2.P NA Ex2.A3 := body_fault_refused Ex2.P NA Ex2.A3 (Or.inr (Or.inl (by decide)))
+
+-- `every_refusal_preserves` / `refusal_stages`: a2 (double spend) is refused by `checkBlock`
+example : obsBest Ex2.P (deliverBlock Ex2.P NA Ex2.A2).1 = obsBest Ex2.P NA :=
+  every_refusal_preserves Ex2.P NA Ex2.A2 "AlreadySpent" (by decide)
+
+-- `header_deliveries_preserve`: headers of the whole b-fork change nothing of the body state
+example : obsBest Ex2.P (run Ex2.P NA ([Ex2.B1, Ex2.B2, Ex2.B3].map Event.header)) = obsBest Ex2.P NA :=
+  header_deliveries_preserve Ex2.P _ NA
+example : (run Ex2.P NA ([Ex2.B1, Ex2.B2, Ex2.B3].map Event.header)).hhead = 13 := by decide
+
+-- `orphan_parked_preserves` / `all_refused_preserves`: the header of b1, then b2 before b1 (parked as
+-- an orphan), then a refused block and another header
+example : (deliverBlock Ex2.P (run Ex2.P NA [.header Ex2.B1]) Ex2.B2).2 = .err "Orphan" := by decide
+example : obsBest Ex2.P
+      (run Ex2.P NA [.header Ex2.B1, .block Ex2.B2, .block Ex2.A2, .header Ex2.B3]) =
+    obsBest Ex2.P NA :=
+  all_refused_preserves Ex2.P _ NA (by
+    simp only [AllRefused]
+    exact ⟨⟨"Orphan", by decide⟩, ⟨"AlreadySpent", by decide⟩, trivial⟩)
+
+end ClassExamples
 end GV.Props.C06
